@@ -68,15 +68,18 @@ def assocSet (k v : Nat) : List (Nat × Nat) → List (Nat × Nat)
 
 def assocDel (k : Nat) (l : List (Nat × Nat)) : List (Nat × Nat) := l.filter (fun p => p.1 ≠ k)
 
-/-- `retainUsedCosiNonce` -/
-def retain (maxRetained : Nat) (b : Book) (snap nonce : Nat) : Book :=
-  let order := if (b.used.lookup snap).isNone then b.order ++ [snap] else b.order
-  let used := assocSet snap nonce b.used
-  if order.length ≤ maxRetained then { b with used := used, order := order }
+/-- tail of `retainUsedCosiNonce`: drop the oldest retained snapshot when the FIFO is over its bound -/
+def evict (maxRetained : Nat) (randoms : List Nat) (used : List (Nat × Nat)) (order : List Nat) : Book :=
+  if order.length ≤ maxRetained then { randoms := randoms, used := used, order := order }
   else
     match order with
-    | [] => { b with used := used, order := order }
-    | oldest :: rest => { b with used := assocDel oldest used, order := rest }
+    | [] => { randoms := randoms, used := used, order := order }
+    | oldest :: rest => { randoms := randoms, used := assocDel oldest used, order := rest }
+
+/-- `retainUsedCosiNonce` -/
+def retain (maxRetained : Nat) (b : Book) (snap nonce : Nat) : Book :=
+  evict maxRetained b.randoms (assocSet snap nonce b.used)
+    (if (b.used.lookup snap).isNone then b.order ++ [snap] else b.order)
 
 /-- `cosiRetrieveRandom(snap, _, challenge)`: the nonce handed out (by commitment) -/
 def retrieve (maxRetained : Nat) (b : Book) (snap commitment : Nat) : Book × Option Nat :=
